@@ -10,6 +10,9 @@ use std::collections::BTreeSet;
 use vcommon::tape::*;
 use vcommon::{Check, Chooser, RunOutcome, Tier};
 
+/// allowance (announce intervals) for counting a vanished grandmaster's data up to stepsRemoved 255
+const RING_EXTRA: u128 = 800;
+
 pub struct C01 {
     pub family: &'static str,
     pub skew: bool,
@@ -282,9 +285,35 @@ fn check_steady(w: &World, st: &NetState, phase: &str, out: &mut RunOutcome) {
 }
 
 impl C01 {
-    fn window(&self, w: &mut World, ch: &mut Chooser, st: &NetState, settle: Tt, hold: Tt, step: Tt, phase: &str) {
+    fn window(&self, w: &mut World, ch: &mut Chooser, st: &NetState, settle: Tt, hold: Tt, step: Tt, tau: u128, phase: &str) {
         let t0 = w.now();
-        w.run_until(ch, t0 + settle);
+        // Wait for convergence, at most `settle`: the deadline is what the oracle enforces, but a
+        // network that already satisfies every invariant continuously for `quiet` (well above the time
+        // any pending timeout or foreign-master window can still act) goes into the hold window at
+        // once - the hold window then looks for changes where they would be most likely.
+        let quiet = step * 2 * (2 * tau + 6);
+        let mut clean_since: Option<Tt> = None;
+        loop {
+            let now = w.now();
+            if now >= t0 + settle {
+                break;
+            }
+            w.run_until(ch, (now + step).min(t0 + settle));
+            let mut scratch = RunOutcome::default();
+            check_steady(w, st, phase, &mut scratch);
+            if std::env::var("VERIF_TRACE").is_ok() {
+                eprintln!("t={:.1}s ({phase}) steps {:?} clean={}", tt_to_secs(w.now()), w.nodes.iter().map(|n| n.inst.current_ds(None).steps_removed).collect::<Vec<_>>(), scratch.violations.is_empty());
+            }
+            if scratch.violations.is_empty() {
+                let since = *clean_since.get_or_insert(w.now());
+                if w.now() - since >= quiet {
+                    w.out.probe("settled_before_deadline");
+                    break;
+                }
+            } else {
+                clean_since = None;
+            }
+        }
         let mut out = std::mem::take(&mut w.out);
         check_steady(w, st, phase, &mut out);
         out.oracle_evals += 1;
@@ -369,11 +398,11 @@ impl Check for C01 {
         // A corrupted Announce of the noisy prelude can describe a grandmaster that does not exist;
         // in a topology with redundant paths its data then circulate until stepsRemoved reaches 255
         // (see below), so the first convergence gets the same allowance there.
-        let conv_extra: u128 = if self.noisy && has_cycle { 300 } else { 0 };
+        let conv_extra: u128 = if self.noisy && has_cycle { RING_EXTRA } else { 0 };
         let t_conv = (2 * tau + 4 + 2 * n + conv_extra) * i_units;
         let hold = 20 * i_units;
         let step = i_units / 2;
-        self.window(&mut w, ch, &st, t_conv, hold, step, "initial");
+        self.window(&mut w, ch, &st, t_conv, hold, step, tau, "initial");
         w.shape.byte(0xA1);
 
         // one fault script
@@ -419,9 +448,12 @@ impl Check for C01 {
             }
         }
         // Without the path trace option IEEE 1588 lets the data of a vanished grandmaster circulate
-        // in a ring with stepsRemoved growing by one per hop - at worst one hop per announce interval -
-        // until it reaches 255, so topologies with redundant paths get 300 intervals more.
-        let ring_extra: u128 = if has_cycle || plan.has_ring || plan.has_dual { 300 } else { 0 };
+        // in a ring with stepsRemoved growing by one per hop until it reaches 255. A hop costs up to one
+        // announce interval of the emitting port (times its timer skew), and more where the walk moves
+        // a node to another parent (two Announces to qualify it plus a BMCA run): observed up to 1.4
+        // intervals per hop on average, bounded by about 3. Topologies with redundant paths therefore
+        // get RING_EXTRA = 800 intervals more (> 3 x 255).
+        let ring_extra: u128 = if has_cycle || plan.has_ring || plan.has_dual { RING_EXTRA } else { 0 };
         let t_reconv = (4 + 2 * tau + 2 * n + ring_extra) * i_units;
         let mut fault_desc = Vec::new();
         for f in script {
@@ -475,7 +507,7 @@ impl Check for C01 {
             }
             fault_desc.push(format!("{f:?}"));
             w.shape.byte(0xA2);
-            self.window(&mut w, ch, &st, t_reconv, hold, step, &phase);
+            self.window(&mut w, ch, &st, t_reconv, hold, step, tau, &phase);
             w.out.nontrivial = true;
         }
         if fault_desc.is_empty() {
